@@ -14,4 +14,6 @@ def rules(ctx, tier):
         lambda: identity.rule_ident(ctx),
         lambda: sidops.rule_queryroute(ctx),
         lambda: pathops.rule_canon(ctx),
+        lambda: mutation.rule_esc(ctx),
+        lambda: sidops.rule_ret3(ctx),
     ]
